@@ -457,6 +457,13 @@ func main() {
 		w.Add(c)
 		stats(w, d)
 	}
+	if a.Tier == "thorough" {
+		brng := rand.New(rand.NewSource(a.Seed + 2))
+		w.Add(bigCase(brng, pbfgen.Opts{MinBlocks: 300, MaxBlocks: 400, MaxGroups: 2, MaxItems: 6}, procsAll, "400-small-blocks"))
+		w.Add(bigCase(brng, pbfgen.Opts{MinBlocks: 40, MaxBlocks: 60, MaxGroups: 1, MaxItems: 8000, Kinds: "d", MinElements: 1}, []int{1, 3, 16}, "8k-dense-groups"))
+		w.Add(bigCase(brng, pbfgen.Opts{MinBlocks: 120, MaxBlocks: 150, MaxGroups: 3, MaxItems: 400, MaxTags: 6, MaxRefs: 200, MaxMembers: 100}, []int{1, 7}, "mixed-large"))
+		w.Count("big-files")
+	}
 	// canaries, each on the first generated file it applies to
 	crng := rand.New(rand.NewSource(a.Seed + 1))
 	for _, cn := range canaries {
@@ -485,6 +492,84 @@ func main() {
 	if err := w.Flush(a.Out, "Verif.C01.Check", 12); err != nil {
 		fail(err)
 	}
+}
+
+// goOracle compares observed objects with the format's meaning on the Go side (used for files
+// that are too large to ship to Coq: hundreds of blocks, 8000-element dense groups).
+func goOracle(d *pbfgen.FileDesc, objs []pbfwire.Obs) string {
+	want := pbfgen.Elements(d)
+	if len(want) != len(objs) {
+		return fmt.Sprintf("%d objects returned, the file encodes %d", len(objs), len(want))
+	}
+	kinds := map[string]int{"node": 0, "way": 1, "relation": 2}
+	mt := map[string]int64{"node": 0, "way": 1, "relation": 2, "": -1}
+	for i := range want {
+		e, o := &want[i], &objs[i]
+		bad := func(f string) string {
+			return fmt.Sprintf("object %d (block %d group %d, %s %d): field %s differs: got %+v", i, e.Block, e.Group, e.Kind, e.ID, f, *o)
+		}
+		switch {
+		case kinds[e.Kind] != o.Kind:
+			return bad("kind")
+		case e.ID != o.ID:
+			return bad("id")
+		case !o.Tol:
+			return bad("coordinate tolerance")
+		case e.Version != o.Version, e.Changeset != o.CS, e.UID != o.UID, e.User != o.User, e.Visible != o.Visible:
+			return bad("metadata")
+		case e.HasTimestamp != o.HasTS || (e.HasTimestamp && e.TimestampMs*1000000 != o.TSNano):
+			return bad("timestamp")
+		case len(e.Tags) != len(o.Tags), len(e.Nodes) != len(o.Nodes), len(e.Members) != len(o.Members):
+			return bad("lengths")
+		}
+		if e.Kind == "node" && (e.LatNano != o.Lat || e.LonNano != o.Lon) {
+			return bad("coordinates")
+		}
+		for k := range e.Tags {
+			if e.Tags[k].K != o.Tags[k][0] || e.Tags[k].V != o.Tags[k][1] {
+				return bad("tags")
+			}
+		}
+		for k := range e.Nodes {
+			if e.Nodes[k].ID != o.Nodes[k][0] || e.Nodes[k].LatNano != o.Nodes[k][1] || e.Nodes[k].LonNano != o.Nodes[k][2] {
+				return bad("way nodes")
+			}
+		}
+		for k := range e.Members {
+			if mt[e.Members[k].Type] != o.Members[k].Type || e.Members[k].Ref != o.Members[k].Ref || e.Members[k].Role != o.Members[k].Role {
+				return bad("members")
+			}
+		}
+	}
+	return ""
+}
+
+// bigCase: a large file judged by the Go-side oracle only; the Coq case is the empty file (so that
+// the shard accounting stays uniform) and carries the verdict in OracleFail.
+func bigCase(rng *rand.Rand, opts pbfgen.Opts, procs []int, label string) *wire.Case {
+	d := pbfgen.RandomFile(rng, opts)
+	data, _ := pbfgen.Encode(d)
+	c := &wire.Case{Class: "big:" + label}
+	nobj := 0
+	for _, p := range procs {
+		objs, st, es := scan(data, p)
+		nobj = len(objs)
+		if st != 0 {
+			c.OracleFail = fmt.Sprintf("procs=%d: Err() = %s", p, es)
+			break
+		}
+		if msg := goOracle(d, objs); msg != "" {
+			c.OracleFail = fmt.Sprintf("procs=%d: %s", p, msg)
+			break
+		}
+	}
+	c.Desc = map[string]interface{}{"big_file": label, "opts": opts, "blocks": len(d.Blocks), "bytes": len(data), "objects": nobj, "procs": procs,
+		"note": "too large for the Coq transport: judged by the Go-side oracle (observed = pbfgen.Elements, field for field); regenerate with the run's seed"}
+	// tokens of the empty file: no pool, no header, no blocks, one observation (procs 1, nil error, no objects)
+	c.Len(0).Bool(false).Len(0).Len(1).Len(1).Int(1).Int(0).Len(0)
+	c.Trivial = false
+	c.Toks = append(c.Toks, []uint64{}...)
+	return c
 }
 
 func stats(w *wire.Writer, d *pbfgen.FileDesc) {
